@@ -488,12 +488,12 @@ PROPS = {
                     "replies, errors and the state after rejected operations are compared; families c07/gcwindow: the same "
                     "writes while change iterators are registered (deleted objects are then kept as tombstones that a "
                     "later write of the key meets); non-trivial = >= 2 writes",
-                    _nt_write, extra_modes=(("kf_n", 20, 100), ("c07", 150, 3000), ("gcwindow", 80, 1500)), tlc_gen=True),
+                    _nt_write, extra_modes=(("kf_n", 20, 100), ("c07", 150, 3000), ("gcwindow", 80, 1500), ("dbfan", 16, 300)), tlc_gen=True),
     "C04": _db_prop("C04", "c04", 250, 5000,
                     "complete query battery (Get/List/Prefix/LowerBound/All/NumObjects/ByRevision on primary, unique, "
                     "multi-key, LPM unique/non-unique indexes; keys empty, prefixes of one another, 0x00/0x01/0xff) on "
                     "fresh snapshots and inside write transactions after key-set changing updates; non-trivial = >= 2 writes",
-                    _nt_write, extra_modes=(("lpmshared", 100, 2000), ("derive", 60, 1200)), tlc_gen=True),
+                    _nt_write, extra_modes=(("lpmshared", 100, 2000), ("derive", 60, 1200), ("dbfan", 16, 300)), tlc_gen=True),
     "C06": _db_prop("C06", "c06", 300, 6000,
                     "watch channels of every query kind on every index kind taken from fresh snapshots before each "
                     "transaction plus InsertWatch; channel bits sampled at hand-out and after every commit/abort; "
